@@ -254,7 +254,7 @@ func packBound(w *world, count int, n uint32, ti int) []trace.Ev {
 		receipts[i] = &tx.Receipt{}
 	}
 	receipts[ti] = &tx.Receipt{Outputs: []*tx.Output{o}}
-	out := trace.Ev{"e": "Pack", "n": n, "ti": ti, "count": count, "err": false, "last": []int{}, "rows": 0}
+	out := trace.Ev{"e": "SeqBound", "n": n, "ti": ti, "count": count, "err": false, "last": []int{}, "rows": 0}
 	wr := ldb.NewWriter()
 	if re := guard("write", func() error {
 		if err := wr.Write(blk, receipts); err != nil {
